@@ -262,6 +262,11 @@ def build_cases(tier="quick"):
     refq0 = [Case(f"{PROP}/solve.solve_low_level#query-of-this-path", c.case, c.harness, replay=c.replay, sources=c.sources) for c in c05.timeout_cases()]
     refq = refq0 + [Case(f"{PROP}/solve.dump#refined-query-keeps-its-constraints", c.case, c.harness, replay=c.replay, sources=c.sources) for c in c11.dump_cases()]
     ref = refq + [Case(f"{PROP}/sevm.Path.branch#concretization-ownership", c.case, c.harness, replay=c.replay, sources=c.sources) for c in c02.path_cases() if "Path.branch" in c.unit]
+    # under --cache-solver a condition binds the model only through its named assertion: every condition id is exported (C16's unit)
+    from contracts import c16
+    from contracts.common import rewrap
+
+    ref += rewrap(PROP, c16.pin_cases(), "model-bound-by-every-condition", lambda c: "to_smt2" in c.unit)
     return from_result_cases() + validity_cases() + parse_model_cases() + value_cases() + classification_cases() + ref
 
 
